@@ -33,6 +33,12 @@ BODIES = {
     "nonroute-falsy-named": [("ifmax", "n", "zero", ["nonroute0", "route"])],
     "nonroute-empty-list": [("ifmax", None, "scalar", ["nonroute[]", "route"])],
     "badcond": [("ifmax", None, "nonscalar", ["route", "route"])],
+    "badcond-symbol": [("ifmax", None, "nonscalar-sym", ["route"])],
+    "badcond-reinterpreted": [("ifmax", "q", "nonscalar-reint", ["route"])],
+    "badcond-symbol-after": [("ifmax", None, "zero", ["route"]), ("ifmax", None, "nonscalar-sym", ["route", "route"])],
+    "failed-route-caught": [("failed-route-caught",), ("ifmax", None, "zero", ["route"]), ("ifmax", "w", "scalar", ["route"])],
+    "failed-route-caught-last": [("ifmax", None, "zero", ["route"]), ("failed-route-caught",)],
+    "empty-name": [("ifmax", None, "zero", ["route"]), ("ifmax", "", "zero", ["route"]), ("ifmax", "b", "scalar", ["route"]), ("ifmax", None, "zero", [])],
     "badcond-after": [("ifmax", "k", "zero", ["route"]), ("ifmax", None, "nonscalar", ["route"])],
     "nonroute": [("ifmax", None, "zero", ["route", "nonroute"])],
     "failbuild": [("ifmax", None, "zero", ["failfixed"])],
@@ -47,15 +53,15 @@ def coq_body(body):
         if s[0] == "ifmax":
             _, name, cond, effs = s
             nm = "None" if name is None else f"(Some {c.s(name)})"
-            cd = {"zero": "CZero", "scalar": "CScalar", "nonscalar": "CNonScalar"}[cond]
+            cd = {"zero": "CZero", "scalar": "CScalar", "nonscalar": "CNonScalar", "nonscalar-sym": "CNonScalar", "nonscalar-reint": "CNonScalar"}[cond]
             ef = c.lst([{"route": "ERoute", "nonroute": "ENonRoute", "nonroute0": "ENonRoute", "nonroute[]": "ENonRoute", "failfixed": "EFailingFixed"}[e] for e in effs])
             out.append(f"(SIfmax {nm} {cd} {ef})")
         elif s[0] == "free":
             out.append("SFree")
         elif s[0] == "raise":
             out.append("SRaise")
-        elif s[0] == "nested-caught":
-            out.append("SNestedCaught")
+        elif s[0] in ("nested-caught", "failed-route-caught"):
+            out.append("SNestedCaught")      # a statement whose error the body catches: nothing changes, the block goes on
         else:
             out.append(f"(SNested {coq_body(s[1])})")
     return c.lst(out)
@@ -94,6 +100,7 @@ def run(rep, tier, rng):
         obs, log = [], []
         with spa.Network() as net:
             s1, s2, s3 = spa.State(16), spa.State(16), spa.State(16)
+            s32 = spa.State(32)
             sc = spa.Scalar()
             inside_flag = [False]
 
@@ -120,7 +127,10 @@ def run(rep, tier, rng):
                                 before = nconn()   # not a routing statement
                             if nconn() != before:
                                 inside_flag[0] = True
-                        cnd = {"zero": 0, "scalar": sc, "nonscalar": s1}[cond]
+                        cnd = {"zero": 0, "scalar": sc, "nonscalar": s1, "nonscalar-sym": spa.sym.A * spa.sym.B,
+                               "nonscalar-reint": None}[cond]
+                        if cond == "nonscalar-reint":
+                            cnd = spa.reinterpret(s1)
                         if name is None:
                             spa.ifmax(cnd, *args)
                         else:
@@ -132,6 +142,11 @@ def run(rep, tier, rng):
                             inside_flag[0] = True
                     elif st[0] == "raise":
                         raise Boom()
+                    elif st[0] == "failed-route-caught":
+                        try:
+                            s1 >> s32          # 16-d into 32-d: type inference fails, handled by the body
+                        except SpaTypeError:
+                            pass
                     elif st[0] == "nested-caught":
                         try:
                             with ActionSelection():
